@@ -166,8 +166,9 @@ void mp_powm(integer_class &res, const integer_class &base,
         res = boost::multiprecision::powm(base, exp, m);
         // boost's powm calculates base**exp % m, but uses truncated
         // modulus, e.g. powm(-2,3,5) == -3.  We want powm(-2,3,5) == 2
+        // (and powm(-2,3,-5) == 2: like mpz_powm, the result lies in [0, |m|))
         if (res < 0) {
-            res += m;
+            res += mp_abs(m);
         }
     }
 }
